@@ -92,6 +92,12 @@ CLAIMED = {
             'directions) and restoration differential after freeing',
             'History search over (variable, value) fixes and frees; oracle = filter model on the unfixed enumeration.',
             'Rows where the fixed variable is inactive may or may not be kept (the statement allows both).'),
+    'C19': ('generated schedules (function kind x limit x completion offset on a dense grid around the expiry x repetitions, '
+            'run under load from 16 concurrent shards) with an outcome-trichotomy / heartbeat / stray-interrupt oracle',
+            'Schedule search: the harness sets when the worker function completes relative to the limit; the OS still '
+            'chooses the interleaving, so both orders around the expiry are likely but not forced.',
+            'Timing margins of 150 ms protect the oracle against scheduling delays; a crash of a shard is reported as a '
+            'harness error (exit 2), not as a violation.'),
 }
 
 NOT_YET = 'check not built yet in this session (see DESIGN.md 6 for the plan); will be claimed once it is registered'
